@@ -945,6 +945,14 @@ func oracleQuiescent(r *Run, s *sched, cfg cacheCfg, cache *ristretto.Cache[uint
 			sinceSeq = last.endSeq
 		}
 	}
+	// a law that fails after an (un-overlapped) Clear also means the cleared cache does not behave
+	// like a fresh one (C15)
+	law := func(what string) {
+		r.Fail("C17", what, in)
+		if clearSeen {
+			r.Fail("C15", "after Clear the metrics no longer behave like those of a fresh cache: "+what, in)
+		}
+	}
 	if m := cache.Metrics; m != nil && lawsApply {
 		ngets := 0
 		drops := 0
@@ -963,20 +971,20 @@ func oracleQuiescent(r *Run, s *sched, cfg cacheCfg, cache *ristretto.Cache[uint
 			r.Count("c17_after_clear_checked")
 		}
 		if int(m.Hits()+m.Misses()) != ngets {
-			r.Fail("C17", fmt.Sprintf("Hits+Misses=%d, Get calls=%d", m.Hits()+m.Misses(), ngets), in)
+			law(fmt.Sprintf("Hits+Misses=%d, Get calls=%d", m.Hits()+m.Misses(), ngets))
 		}
 		resident := len(sn.Store) // the keys held in the map (= the accounted keys, C13, unless hashes collide)
 		if cfg.mode == "collide" {
 			resident = len(sn.KeyCosts)
 		}
 		if int64(m.KeysAdded()-m.KeysEvicted()) != int64(resident) {
-			r.Fail("C17", fmt.Sprintf("KeysAdded-KeysEvicted=%d, resident keys=%d", int64(m.KeysAdded()-m.KeysEvicted()), resident), in)
+			law(fmt.Sprintf("KeysAdded-KeysEvicted=%d, resident keys=%d", int64(m.KeysAdded()-m.KeysEvicted()), resident))
 		}
 		if int64(m.CostAdded()-m.CostEvicted()) != sn.MaxCost-cache.RemainingCost() {
-			r.Fail("C17", fmt.Sprintf("CostAdded-CostEvicted=%d, MaxCost-Remaining=%d", int64(m.CostAdded()-m.CostEvicted()), sn.MaxCost-cache.RemainingCost()), in)
+			law(fmt.Sprintf("CostAdded-CostEvicted=%d, MaxCost-Remaining=%d", int64(m.CostAdded()-m.CostEvicted()), sn.MaxCost-cache.RemainingCost()))
 		}
 		if int(m.SetsDropped()) != drops {
-			r.Fail("C17", fmt.Sprintf("SetsDropped=%d, refused new sets=%d", m.SetsDropped(), drops), in)
+			law(fmt.Sprintf("SetsDropped=%d, refused new sets=%d", m.SetsDropped(), drops))
 		}
 		// Clear resets the metrics but not the ring stripes: keys pushed by Gets before the Clear are
 		// credited to GetsKept/GetsDropped when their stripe fills afterwards.  The clause (and the
@@ -988,7 +996,7 @@ func oracleQuiescent(r *Run, s *sched, cfg cacheCfg, cache *ristretto.Cache[uint
 			}
 		}
 		if int(m.GetsKept()+m.GetsDropped()) > ngetsAll {
-			r.Fail("C17", fmt.Sprintf("GetsKept+GetsDropped=%d > Gets=%d", m.GetsKept()+m.GetsDropped(), ngetsAll), in)
+			law(fmt.Sprintf("GetsKept+GetsDropped=%d > Gets=%d", m.GetsKept()+m.GetsDropped(), ngetsAll))
 		}
 	}
 }
@@ -1308,7 +1316,7 @@ func oracleSingle(r *Run, calls []*callRec, in string) {
 				x.val = c.val // overwrite of a resident key: immediate
 			case x.kind == 0:
 				x.kind, x.val = 3, c.val
-			case x.kind == 2 && x.expUnk:
+			case (x.kind == 2 && x.expUnk) || (x.kind == 1 && x.ttl && !c.startT.Before(x.expLo)):
 				x.kind, x.val = 4, c.val // expired, swept or not: present after the next Wait
 			default:
 				x.kind = 2
